@@ -349,6 +349,65 @@ def dispatchBinOpFixed (c : BinCfg) : Out :=
 /-- what can actually occur: equal types are not proper subclasses and share their methods -/
 def BinCfg.wf (c : BinCfg) : Bool := !(c.same && (c.rsub || c.rdiff))
 
+
+/-! ### class hierarchies: where the special methods come from
+
+  `type(x).__op__` is the first definition found along the MRO of `type(x)` (never the metaclass).  A method
+  definition is identified by a number (the identity of the function object: an alias `__rsub__ = A.__rsub__`
+  in a subclass body has the SAME identity).  "provides a different reflected method" compares the two
+  looked-up function objects - wherever in the MRO they were found. -/
+
+abbrev MethId := Nat
+
+/-- one class: the special methods written in its own body -/
+structure Cls where
+  own : List (Name × MethId)
+  deriving Repr, DecidableEq
+
+/-- the MRO of a type, the type itself first -/
+abbrev Mro := List Cls
+
+def lookupMro (name : Name) : Mro → Option MethId
+  | [] => none
+  | c :: rest => match lookup name c.own with
+    | some m => some m
+    | none => lookupMro name rest
+
+structure HierCfg where
+  same : Bool                -- type(lhs) is type(rhs)
+  rsub : Bool                -- type(rhs) is a proper subclass of type(lhs)
+  op : Name                  -- `__op__`
+  rop : Name                 -- `__rop__`
+  mroL : Mro
+  mroR : Mro
+  result : List (MethId × Res)   -- what each method definition returns for these operands
+  deriving Repr, DecidableEq
+
+def resOf (h : HierCfg) (m : MethId) : Res :=
+  match h.result.find? (fun p => p.1 == m) with
+  | some p => p.2
+  | none => .notImpl
+
+/-- the dispatcher's view of a hierarchy: `rdiff` = the reflected method looked up in the MRO of the right
+    type is not the one looked up in the MRO of the left type -/
+def HierCfg.toBin (h : HierCfg) : BinCfg :=
+  { same := h.same, rsub := h.rsub,
+    rdiff := decide (lookupMro h.rop h.mroR ≠ lookupMro h.rop h.mroL),
+    lop := (lookupMro h.op h.mroL).map (resOf h),
+    rrop := (lookupMro h.rop h.mroR).map (resOf h) }
+
+/-- MIRROR of the dispatch of the current tree (`lookup_in_mro` + identity comparison) on a hierarchy -/
+def dispatchHier (h : HierCfg) : Out := dispatchBinOpFixed h.toBin
+/-- SPEC on a hierarchy -/
+def cpyHier (h : HierCfg) : Out := cpyBinOp h.toBin
+
+/-- the WRONG predicate "the reflected method is written in the body of the right operand's own class"
+    (kept to state that it is not CPython's rule) -/
+def HierCfg.toBinOwnDict (h : HierCfg) : BinCfg :=
+  { h.toBin with rdiff := match h.mroR with
+      | c :: _ => (lookup h.rop c.own).isSome
+      | [] => false }
+
 /-! ### rich comparisons (`<`, `<=`, `==`, ...): every type has the methods (object's return NotImplemented) -/
 
 inductive CmpKind where | eq | ne | ord
@@ -432,6 +491,8 @@ def CmpCfg.wf (c : CmpCfg) : Bool := !(c.same && c.rsub) && (!c.ident || c.same)
   binop|binopfixed|cpybinop SAME RSUB RDIFF LOP RROP    (LOP/RROP: `-` absent, `n` NotImplemented, `v<k>`)
                               -> `calls result`  calls in {-,l,r,lr,rl}; result `v<k>` | `err`
   cmp|cmpfixed|cpycmp KIND SAME RSUB IDENT LOP RROP     (LOP/RROP: `n` | `t` | `f`)
+  hier|cpyhier SAME RSUB OP ROP MROL MROR RESULTS       (MRO `own/own/..`, own = `name:id,..` | `-`; RESULTS `id:n|id:v<k>`)
+                              -> `calls result [priority]`
 -/
 
 def parseList (s : String) : Option (List Nat) :=
@@ -519,6 +580,29 @@ def parseCmpCfg (a : List String) : Option CmpCfg :=
     pure ⟨k, ← parseBool s, ← parseBool rs, ← parseBool i, ← parseCRes l, ← parseCRes r⟩
   | _ => none
 
+
+/-- `A/B/C` with each class `name:id,name:id` or `-` -/
+def parseMro (s : String) : Option Mro :=
+  (s.splitOn "/").mapM fun c => (parseKw c).map fun own => (⟨own⟩ : Cls)
+
+def parseResults (s : String) : Option (List (MethId × Res)) :=
+  if s == "-" then some [] else
+    (s.splitOn ",").mapM fun kv =>
+      match kv.splitOn ":" with
+      | [k, v] => do
+        let k ← k.toNat?
+        let r ← (if v == "n" then some Res.notImpl else match v.toList with
+          | 'v' :: r => (String.ofList r).toNat?.map Res.val
+          | _ => none)
+        pure (k, r)
+      | _ => none
+
+def parseHier (a : List String) : Option HierCfg :=
+  match a with
+  | [s, rs, op, rop, ml, mr, res] => do
+    pure ⟨← parseBool s, ← parseBool rs, ← op.toNat?, ← rop.toNat?, ← parseMro ml, ← parseMro mr, ← parseResults res⟩
+  | _ => none
+
 def handle (args : List String) : String :=
   match args with
   | "bind" :: rest =>
@@ -568,6 +652,10 @@ def handle (args : List String) : String :=
   | "binop" :: rest => match parseBinCfg rest with | some c => showOut (dispatchBinOp c) | none => "bad-op"
   | "binopfixed" :: rest => match parseBinCfg rest with | some c => showOut (dispatchBinOpFixed c) | none => "bad-op"
   | "cpybinop" :: rest => match parseBinCfg rest with | some c => showOut (cpyBinOp c) | none => "bad-op"
+  | "hier" :: rest => match parseHier rest with
+    | some h => showOut (dispatchHier h) ++ " " ++ b01 h.toBin.priority
+    | none => "bad-op"
+  | "cpyhier" :: rest => match parseHier rest with | some h => showOut (cpyHier h) | none => "bad-op"
   | "cmp" :: rest => match parseCmpCfg rest with | some c => showCOut (dispatchCmp c) | none => "bad-op"
   | "cmpfixed" :: rest => match parseCmpCfg rest with | some c => showCOut (dispatchCmpFixed c) | none => "bad-op"
   | "cpycmp" :: rest => match parseCmpCfg rest with | some c => showCOut (cpyCmp c) | none => "bad-op"
